@@ -2,6 +2,7 @@ import DeltaModel.Proto
 import DeltaModel.Machine
 import DeltaModel.IngestMachine
 import DeltaModel.InputPath
+import DeltaModel.ColorOnlyPaint
 /-!
 Model driver for the line state machine.
 
@@ -223,4 +224,54 @@ def stepInput (line : String) : String :=
       "ok " ++ (if obs = [] then "-" else ";".intercalate obs) ++ " " ++ (if ls = [] then "-" else ",".intercalate ls)
   | _ => stepMachineRaw line
 
-def main : IO Unit := serve stepInput
+-- copaint.block (C02 session 4, T16): the bytes `paint_lines` writes for a block of hunk lines, stripped ---------------
+-- Request:  `copaint.block <keep-markers 0|1> <line> <line> ...`,
+--   <line> = `<m|z|p>/<u|c|k>/<prefix>/<sec>.<sec>…/<real>`: line kind; diff type (u = unified, c = combined with the line's
+--            prefix columns carried by the state, k = combined inside a merge conflict); the prefix columns (x-hex); the text of
+--            the superimposed sections (x-hex each, painted in styles that differ from section to section); the line the real
+--            binary wrote (x-hex, escape sequences included)
+-- Response: `ok <model>/<real>/<row>;...` per line: `ColorOnlyPaint.visible` of the model's painted bytes
+--            (`ColorOnlyPaint.paintedBlock` = `PaintLine.paintedLine` per line from `stOf kind dt`), `visible` of the real line,
+--            and the machine row text `Machine.paintedPrefix … ++ <section texts>`; all x-hex. `ERR <why>` otherwise.
+
+def coPalette : List Sgr.Style :=
+  [{ fg := some (.basic 1) }, { bg := some (.fixed 22), bold := true }, {}, { fg := some (.rgb 1 2 3), underline := true }]
+
+def coLine (f : String) : Option (LineKind × DiffType × List (List Char) × List Char) :=
+  match f.splitOn "/" with
+  | [k, d, p, secs, real] => do
+    let k ← (match k with | "m" => some LineKind.minus | "z" => some .zero | "p" => some .plus | _ => none)
+    let p ← (stringOfField p).map String.toList
+    let dt ← (match d with
+      | "u" => some DiffType.unified
+      | "c" => some (.combined (.pre p) false)
+      | "k" => some (.combined (.pre p) true)
+      | _ => none)
+    let secs ← (secs.splitOn ".").mapM fun s => (stringOfField s).map String.toList
+    let real ← (stringOfField real).map String.toList
+    pure (k, dt, secs, real)
+  | _ => none
+
+def stepCoPaint (line : String) : String :=
+  match fields line with
+  | "copaint.block" :: keep :: ls =>
+    match ls.mapM coLine with
+    | none => "ERR bad line"
+    | some xs =>
+      let pc : PaintLine.Cfg := { minusStyle := (coPalette.getD 0 {}), zeroStyle := (coPalette.getD 2 {}), plusStyle := (coPalette.getD 1 {}),
+                                  keepMarkers := keep == "1" }
+      let mc : Machine.Cfg := { keepMarkers := keep == "1" }
+      let inps : List PaintLine.Input := xs.map fun (k, dt, secs, _) =>
+        { st := ColorOnlyPaint.stOf k dt false,
+          sections := secs.zipIdx.map (fun (t, i) => (coPalette.getD (i % 4) {}, PaintLine.asciiClusters t)),
+          bg := .with_ .ansi }
+      match ColorOnlyPaint.paintedBlock pc inps with
+      | .error e => "ERR " ++ hexOfString e
+      | .ok outs =>
+        "ok " ++ ";".intercalate ((xs.zip outs).map fun ((k, dt, secs, real), out) =>
+          hexOfString (String.ofList (ColorOnlyPaint.visible out)) ++ "/" ++
+          hexOfString (String.ofList (ColorOnlyPaint.visible real)) ++ "/" ++
+          hexOfString (String.ofList (Machine.paintedPrefix mc k dt ++ secs.flatten)))
+  | _ => stepInput line
+
+def main : IO Unit := serve stepCoPaint
